@@ -505,7 +505,8 @@ def merge_rotations(circuit: Circuit):
     # TODO: could extend to other variational gates, standard or native to some devices (XX, etc)
     rot_gates = {"RX", "RY", "RZ", "CRX", "CRY", "CRZ", "PHASE", "CPHASE"}
 
-    for gi, gate in enumerate(circuit):
+    # Work on copies of the gates: merged parameters are accumulated in place, the input circuit must not be altered.
+    for gi, gate in enumerate(Gate(g.name, g.target, g.control, g.parameter, g.is_variational) for g in circuit):
         merge_gate = False
 
         # Identify qubits the current gate acts on.
